@@ -173,7 +173,7 @@ Definition prevalidate_block (b : block) (now : N) : res unit :=
   _ <- guard (b_ts b <=? wadd now (future_time_limit cfg * 1000)) 604 ;;
   _ <- guard (chains_ok (b_chains b)) 605 ;;
   _ <- prevalidate_txs (b_txs b) (b_height b) ;;
-  _ <- (if b_height b =? 440 then Ok tt
+  _ <- (if (b_height b =? 440) && is_secured (b_height b) then Ok tt   (* mainnet block 440, pinned by the checkpoints *)
         else _ <- guard (forallb (fun s => negb (list_nat_eqb (cm_anc s) (b_anc b))) (b_sides b)) 606 ;;
              guard (sides_dup_free (b_sides b)) 607) ;;
   if negb (is_secured (b_height b)) then
